@@ -42,6 +42,7 @@ struct ReadOpts {
   bool want_items = false;
   bool norm_zero = false;
   long max_notifications = 0;   // recording handler only; 0 = unlimited
+  bool std_string = false;      // string path: hand the bytes over as a std::string (its size, not its first NUL, is the end of input)
   int only_obj = -1;            // recording handler only: NeedObj(i) is true for this objective alone (-1: all)
 };
 
